@@ -972,7 +972,12 @@ def _read_unicode_escape_seq(ctx: ReaderContext) -> str:
             f"Unicode escape sequence must be exactly 4 or 8 hex digits; got '{unicode_hex}'"
         )
 
-    return chr(int(unicode_hex, base=16))
+    try:
+        return chr(int(unicode_hex, base=16))
+    except (ValueError, OverflowError):
+        raise ctx.syntax_error(
+            f"Unicode escape sequence \\u{unicode_hex} is not a valid code point"
+        ) from None
 
 
 def _read_str(ctx: ReaderContext, raw_string: bool = False) -> str:
